@@ -12,6 +12,8 @@ use std::sync::{Arc, Mutex};
 
 pub struct CausalProbe {
     pub max_missing: usize,
+    /// above max_missing and up to this size the subset lattice is walked instead of all permutations
+    pub max_lattice: usize,
     pub seen: Mutex<HashSet<String>>,
 }
 
@@ -88,8 +90,72 @@ impl Probe for CausalProbe {
                 }
                 let tstore = if t < n { stores[t].clone() } else { RawStore::new() };
                 let missing: Vec<String> = stores[s].keys().filter(|k| !tstore.contains_key(*k)).cloned().collect();
-                if missing.is_empty() || missing.len() > self.max_missing {
+                if missing.is_empty() || missing.len() > self.max_lattice {
                     if !missing.is_empty() { cx.count("skipped_too_many_missing"); }
+                    continue;
+                }
+                if missing.len() > self.max_missing {
+                    // subset lattice: every delivered SET is reached, every edge (set, next item) is
+                    // executed once from a representative path; the state recorded for a set must be the
+                    // same whichever edge reaches it (=> by induction every order gives the same state)
+                    let dk = format!("L|{}|{}|{}", if t < n { keys[t].clone() } else { "empty".into() }, store_digest(&stores[s]), t < n);
+                    if !self.seen.lock().unwrap().insert(dk) {
+                        continue;
+                    }
+                    cx.count("lattice_problems");
+                    let nm = missing.len();
+                    let mut rep_path: std::collections::HashMap<u32, Vec<usize>> = std::collections::HashMap::new();
+                    let mut rec: std::collections::HashMap<u32, String> = std::collections::HashMap::new();
+                    rep_path.insert(0, vec![]);
+                    let mut masks: Vec<u32> = (0..(1u32 << nm)).collect();
+                    masks.sort_by_key(|m| m.count_ones());
+                    for mask in masks {
+                        let Some(path) = rep_path.get(&mask).cloned() else { continue };
+                        for k in 0..nm {
+                            if mask & (1 << k) != 0 {
+                                continue;
+                            }
+                            cx.count("lattice_edges");
+                            let mut w = if t < n { sc.build(hist) } else { World::new(1, sc.menu.clone()) };
+                            let tr = if t < n { t } else { 0 };
+                            let mut delivered = vec![];
+                            let mut okk = true;
+                            for &pi in path.iter().chain(std::iter::once(&k)) {
+                                let key = &missing[pi];
+                                w.reps[tr].store.put_raw(key, stores[s][key].clone());
+                                delivered.push(key.clone());
+                                if !w.apply(&Op::Refresh(tr)).is_ok() {
+                                    cx.violation("C02", "C02:refresh-failed", sc, hist, json!({"target": t, "delivered": delivered}));
+                                    okk = false;
+                                    break;
+                                }
+                            }
+                            if !okk {
+                                return;
+                            }
+                            let nv = cx.violations.len();
+                            check_target(sc, hist, &w, tr, &delivered, cx, None);
+                            if cx.violations.len() > nv {
+                                return;
+                            }
+                            w.focus();
+                            let sig = json!({"view": w.view(tr), "status": w.reps[tr].m.verif_delta_status()}).to_string();
+                            let nmask = mask | (1 << k);
+                            match rec.get(&nmask) {
+                                Some(old) if *old != sig => {
+                                    cx.violation("C02", "C02:state-depends-on-delivery-order", sc, hist, json!({"target": t, "delivered_in_this_order": delivered, "other_order": rep_path.get(&nmask).map(|p| p.iter().map(|&i| missing[i].clone()).collect::<Vec<_>>())}));
+                                    return;
+                                }
+                                Some(_) => {}
+                                None => {
+                                    rec.insert(nmask, sig);
+                                    let mut np = path.clone();
+                                    np.push(k);
+                                    rep_path.insert(nmask, np);
+                                }
+                            }
+                        }
+                    }
                     continue;
                 }
                 let dk = format!("{}|{}|{}", if t < n { keys[t].clone() } else { "empty".into() }, store_digest(&stores[s]), t < n);
@@ -142,15 +208,16 @@ pub fn scenarios(thorough: bool) -> Vec<Scenario> {
     v.push(pair_conflict_scenario("pair-conflict", 2, 3, if thorough { &[1, 8, 4] } else { &[1] }, if thorough { 5 } else { 3 },
         &[Op::Resolve(1, 0, 0), Op::Resolve(1, 0, 1), Op::Unstage(1)]));
     v.push(trio_scenario("trio", if thorough { 7 } else { 5 }));
+    v.push(trio_merge_scenario("trio-merge", if thorough { 3 } else { 2 }, &[]));
     v
 }
 
 pub fn run(thorough: bool) {
     let mut rep = Report::new("C02", if thorough { "thorough" } else { "quick" }, "model_checking");
-    let max_missing = if thorough { 7 } else { 6 };
+    let max_missing = if thorough { 7 } else { 5 };
     run_h(&mut rep, RunCfg {
         scenarios: scenarios(thorough),
-        probes: vec![Arc::new(CausalProbe { max_missing, seen: Mutex::new(HashSet::new()) })],
+        probes: vec![Arc::new(CausalProbe { max_missing, max_lattice: if thorough { 10 } else { 8 }, seen: Mutex::new(HashSet::new()) })],
         pools: vec![1],
         time_budget_s: if thorough { 3000 } else { 45 },
         max_states: if thorough { 100_000 } else { 3_000 },
